@@ -1,0 +1,21 @@
+//! Verification hooks, compiled only with the `verif` cargo feature.
+//!
+//! This module only re-exports items that are already `pub` inside private modules, so that an
+//! external model-checking harness can drive the real components. It adds no behaviour.
+
+pub use crate::congestion::{CongestionController, cubic::Cubic};
+pub use crate::constants::{
+    ACK_DELAY, DEFAULT_MAX_ACTIVE_STREAMS_PER_SOCKET, DEFAULT_REMOTE_INACTIVITY_TIMEOUT,
+    IMMEDIATE_ACK_EVERY_RMSS, IPV4_HEADER, IPV6_HEADER, RX_BUF_SIZE_PER_VSOCK_DEFAULT, SACK_DEPTH,
+    SACK_DUP_THRESH, SYNACK_RESEND_INTERNAL, TX_BUF_SIZE_PER_VSOCK_INITIAL_DEFAULT,
+    TX_BUF_SIZE_PER_VSOCK_MAX_DEFAULT, UDP_HEADER, UTP_HEADER, WRAP_TOLERANCE,
+};
+pub use crate::message::UtpMessage;
+pub use crate::recovery::Recovery;
+pub use crate::rtte::RttEstimator;
+pub use crate::seq_nr::SeqNr;
+pub use crate::stream_rx::{AssemblerAddRemoveResult, OutOfOrderQueue, UserRx};
+pub use crate::stream_tx::UserTx;
+pub use crate::stream_tx_segments::{OnAckResult, PopExpiredProbe, Segments};
+pub use crate::traits::{DefaultUtpEnvironment, UtpEnvironment};
+pub use crate::utils::seq_nr_offset;
